@@ -446,7 +446,21 @@ def _rule_who_completes(ctx: Ctx, r: 'BatcherRoles', rule: str) -> None:
     # ... nobody in the batcher cancels a task or a future (a batch task that is cancelled leaves through CancelledError, past the
     # fan-out handler: the callers of that batch are never answered), and nobody but __call__ touches the retention cache (an
     # eviction by key elsewhere can hit the entry a later caller of that key has just registered)
+    core_ = {r.call.name, r.process.name, r.assemble.name, r.dispatch.name, r.init.name}
+    grew = True
+    while grew:
+        grew = False
+        for nm in list(core_):
+            m0 = byname.get(nm)
+            if m0 is None:
+                continue
+            for x in ast.walk(m0.node):
+                if isinstance(x, ast.Attribute) and isinstance(x.value, ast.Name) and x.value.id == 'self' and x.attr in byname and x.attr not in core_:
+                    core_.add(x.attr)
+                    grew = True
     for m in meths:
+        if m.name not in core_:
+            continue        # (a new public `close()` that cancels the dispatcher is an addition for its own callers to judge)
         for x in ast.walk(m.node):
             if isinstance(x, ast.Call) and isinstance(x.func, ast.Attribute) and x.func.attr == 'cancel' and not x.args:
                 ctx.violation(rule, f'{m.qualname}: {norm(x)[:60]}', f'{FILE}:{x.lineno}',
